@@ -309,15 +309,10 @@ func (e *env) runExpapi(id string) {
 	}
 	q := "?dsn=" + url.QueryEscape(dsn)
 	var used []string
-	for i := 0; i < 14; i++ {
+	for i := 0; i < 12; i++ {
 		k := e.genKey()
-		// the two keys no request form reaches ("" and "/"), once each per run on the file-system backends
-		if i == 12 {
-			k = ""
-		} else if i == 13 {
-			k = "/"
-		}
-		if (i >= 12 && e.backend == "mem") || k == "." || k == ".." || (i < 12 && (k == "" || k == "/")) {
+		// "" and "/" are probed at the end of the run; "." and ".." are reachable only in escaped form
+		if k == "" || k == "/" || k == "." || k == ".." {
 			continue
 		}
 		used = append(used, k)
@@ -382,6 +377,25 @@ func (e *env) runExpapi(id string) {
 		e.emit("S\tDEL\t%s\t%s", hx(k), res)
 		v, err := e.conn.Get(k)
 		e.emit("S\tGET\t%s\t%s\t%s", hx(k), cls(err), valRepr(v))
+	}
+	// last (a failure here must not hide anything above): the two keys no request form reaches
+	if e.backend != "mem" {
+		for _, k := range []string{"", "/"} {
+			v := e.genVal("quick")
+			err := e.conn.Set(k, v)
+			e.emit("S\tSET\t%s\t%s\t%s", hx(k), valRepr(v), cls(err))
+			st, body := do("GET", "/debug/httpcache/"+url.PathEscape(k)+q)
+			res := "err"
+			if st == 200 {
+				res = "ok"
+			} else if st == 404 {
+				res = "notexist"
+			}
+			if st != 200 {
+				body = nil
+			}
+			e.emit("S\tGET\t%s\t%s\t%s", hx(k), res, valRepr(body))
+		}
 	}
 	e.emit("E\t%s", id)
 }
